@@ -231,8 +231,8 @@ func run(c *core.Ctx) error {
 	// ---- 2. Engine A on exhaustively enumerated state graphs
 	only := os.Getenv("VERIF_C15_ONLY") // developer switch: "A" or "B" runs one engine only
 	plans := []graphPlan{
-		{cfg: "KVStore_mc_tiny.cfg", embs: []embedding{embRaw, embFF, embDict}, workers: 2, coverAll: true, walks: c.Pick(120, 3000), walkLen: c.Pick(40, 60), diskFrac: c.Pick(8, 1)},
-		{cfg: "KVStore_mc_tinyval.cfg", embs: []embedding{embDict, embFF}, workers: 3, coverAll: true, walks: c.Pick(80, 2000), walkLen: c.Pick(30, 50), diskFrac: c.Pick(8, 1)},
+		{cfg: "KVStore_mc_tiny.cfg", embs: []embedding{embRaw, embFF, embDict}, workers: 2, coverAll: true, walks: c.Pick(120, 1500), walkLen: c.Pick(40, 60), diskFrac: c.Pick(8, 2)},
+		{cfg: "KVStore_mc_tinyval.cfg", embs: []embedding{embDict, embFF}, workers: 3, coverAll: true, walks: c.Pick(80, 1000), walkLen: c.Pick(30, 50), diskFrac: c.Pick(8, 2)},
 		{cfg: "KVStore_mc_succ.cfg", embs: []embedding{embRaw, embDict}, workers: 2, coverAll: true, walks: c.Pick(20, 300), walkLen: 30, diskFrac: c.Pick(8, 1)},
 		{cfg: "KVStore_mc_repeat.cfg", embs: []embedding{embRaw, embDict}, workers: 2, coverAll: true, walks: c.Pick(20, 200), walkLen: 12, diskFrac: c.Pick(2, 1)},
 	}
@@ -257,7 +257,7 @@ func run(c *core.Ctx) error {
 		if only == "B" {
 			return
 		}
-		simBehs, simErr = c.Simulate("KVStore", "KVStore_sim.cfg", c.Pick(40, 800), c.Pick(40, 60), c.Seed)
+		simBehs, simErr = c.Simulate("KVStore", "KVStore_sim.cfg", c.Pick(40, 400), c.Pick(40, 60), c.Seed)
 	}()
 	// ---- 4. Engine B generation runs meanwhile (real stores, no TLC yet)
 	var runsB []*runB
@@ -267,7 +267,7 @@ func run(c *core.Ctx) error {
 		if only == "A" {
 			return
 		}
-		runsB = generateAllB(c, vars, base, c.Pick(8, 60), c.Pick(150, 400))
+		runsB = generateAllB(c, vars, base, c.Pick(8, 24), c.Pick(150, 400))
 	}()
 	wg.Wait()
 
